@@ -416,7 +416,11 @@ func readBuiltinJQ() (string, error) {
 	return string(b), err
 }
 
-var c03Filters = []string{".", ".a?", ".[]?", "1", "empty", "error", "not", "length?", ".[0]?", ". + 1?", "tostring", "[.]", "type", ". == 1", "select(. != null)", "(1, 2)", ".. ", "null", "false", "\"k\"", "{a: .}", "-.?", "keys?", "first?"}
+var c03Filters = []string{".", ".a?", ".[]?", "1", "empty", "error", "not", "length?", ".[0]?", ". + 1?", "tostring", "[.]", "type", ". == 1", "select(. != null)", "(1, 2)", ".. ", "null", "false", "\"k\"", "{a: .}", "-.?", "keys?", "first?", "(1, 2, 3, 4)", "range(5)", "(.[]?, 7, 8)", "(1, null, 2)", "range(3; 0; -1)", "(\"a\", \"b\", \"c\")"}
+
+// c03ValueArgs: arguments for `$name` parameters of builtins that also take filters (counts, depths, indices, flags):
+// zero, small, negative, fractional on both sides of an integer, huge, non-finite, and wrong types.
+var c03ValueArgs = []string{"0", "1", "2", "-1", "\"a\"", "null", "\"g\"", ".", "[0]", "1.5", "0.5", "-0.5", "2.5", "3", "10", "1e-9", "1e1000", "infinite", "-infinite", "true", "2.000001", "1.999999", "-1.5", "0.0", "-0", "4294967296", "{}"}
 
 func init() {
 	run.Register(&run.Prop{
@@ -482,7 +486,7 @@ func init() {
 						cs.Input = pick()
 						for j := 0; j < arity; j++ {
 							if fd.Args[j][0] == '$' {
-								cs.FArgs = append(cs.FArgs, []string{"0", "1", "2", "-1", "\"a\"", "null", "\"g\"", ".", "[0]"}[r.IntN(9)])
+								cs.FArgs = append(cs.FArgs, c03ValueArgs[r.IntN(len(c03ValueArgs))])
 							} else {
 								cs.FArgs = append(cs.FArgs, c03Filters[r.IntN(len(c03Filters))])
 							}
